@@ -1,4 +1,5 @@
 import HdVerif.Proofs.Match
+import HdVerif.Proofs.MatchTie
 /-! # C09  Geometry matching and comparison mean what they say
 
 Property theorems only (helper lemmas and the specification predicates `AffineWithin`,
@@ -479,6 +480,46 @@ theorem entry_points_hold_no_state :
     v2vCallSelfWrites = [] ∧ refIdxSelfWrites = [] ∧ idxRefSelfWrites = [] ∧ geqSelfWrites = [] ∧ mgSelfWrites = [] := by
   decide
 
+/-! ## Bridges: hand-written definitions use exactly the expressions of the source -/
+
+/-- **Argument forwarding of the crop/pad loop** (`Gen.mgPlanArgs`, regenerated from the `zip(…)` of the loop, the
+`origin_offset` difference, `offset = v @ origin_offset` and the flag initialisations): the model's per-axis plan hands the
+translated loop body the a-th entries of exactly those sequences, and the loop threads the flags from the source's initial
+values.  Swapping two zipped sequences, reversing the origin difference or starting a flag at `True` breaks this proof. -/
+theorem plan_forwards_source_args (nv tgt : Geom) (steps : Ax → Int) (tol : Rat) :
+    (∀ a rc rp, planAxis nv tgt (steps a) tol a rc rp = planAxisGen mgPlanArgs nv tgt steps tol a rc rp) ∧
+    matchPlan nv tgt steps tol = matchPlanGen mgPlanArgs nv tgt steps tol :=
+  ⟨fun a rc rp => planAxis_forwards_source_args nv tgt steps tol a rc rp, matchPlan_forwards_source_args nv tgt steps tol⟩
+
+/-- **Argument forwarding of the alignment loops** (`Gen.mgAlignArgs`, regenerated from the two `zip(…)`s): target axis `i`
+contributes `u, s` and candidate source axis `j = 0, 1, 2` (first match wins) contributes `v, t` from exactly the sequences
+the source zips; the outer loop runs over the target's three axes. -/
+theorem align_forwards_source_args (src tgt : Geom) (tol : Rat) :
+    (∀ i, alignAxis src (tgt.dir i) (tgt.spacing i) tol = alignAxisGen mgAlignArgs src tgt i tol) ∧
+    matchAlign src tgt tol =
+      (match alignAxisGen mgAlignArgs src tgt 0 tol with
+       | .error e => .error e
+       | .ok a0 =>
+       match alignAxisGen mgAlignArgs src tgt 1 tol with
+       | .error e => .error e
+       | .ok a1 =>
+       match alignAxisGen mgAlignArgs src tgt 2 tol with
+       | .error e => .error e
+       | .ok a2 => .ok (mk3 a0.1 a1.1 a2.1, mk3 a0.2 a1.2 a2.2)) :=
+  ⟨fun i => alignAxis_forwards_source_args src tgt i tol, matchAlign_forwards_source_args src tgt tol⟩
+
+/-- **`__getitem__` with a slice** (`Gen.giCheckSlice`, `Gen.giAxis`, regenerated from `_prepare_getitem_index`): the
+model's per-axis indexing is the source's `_check_slice`, then — for what `slice.indices` returns — the source's emptiness
+test, size formula, origin index and column factor. -/
+theorem getitem_uses_source (s : Sl) (n : Int) :
+    getitemAxis s n =
+      (match giCheckSlice (some s.start) s.stop n with
+       | .error e => .error e
+       | .ok _ =>
+         if s.step = 0 then .error .value
+         else giAxis (adjustBound s.start n s.step) (lastOf s n) s.step) :=
+  getitemAxis_uses_source s n
+
 /-! ## Non-vacuity: the hypotheses are satisfiable by concrete non-trivial inputs -/
 
 /-- a 2×3×4 source: axis 0 along x, axis 1 along y (spacing 1/2), axis 2 along z (spacing 2);
@@ -630,5 +671,13 @@ the same point (`v2v` example above).  Not a violation of "fails only for points
 theorem counterexample_ref_rounded_face_returns_n :
     refToIdx exTgt.aff exTgt.shape true true [exTgt.aff.apply ⟨0, 7 / 2, 0⟩] = .ok [⟨0, 4, 0⟩] ∧ exTgt.shape 1 = 4 := by
   decide +kernel
+
+/-- the bridges on concrete inputs: the regenerated forwarding evaluates the example pair like the model; a suffix crop
+that ends exactly at the end of the axis is accepted by the regenerated `_check_slice` -/
+example : (match matchPlanGen mgPlanArgs (permuted exSrc.geom (mk3 2 0 1)) exTgt (mk3 (-2) 1 1) (1 / 100000) with
+    | .ok pl => pl.1.before == 2 && pl.1.sl.start == 5 && pl.2.1.before == 1 && pl.2.1.after == 1 && pl.2.2.sl.start == 1
+    | .error _ => false) = true := by decide +kernel
+example : alignAxisGen mgAlignArgs exSrc.geom exTgt 0 (1 / 100000) = .ok (2, -2) := by decide +kernel
+example : getitemAxis ⟨1, some 4, 1⟩ 4 = .ok (1, 1, 3) ∧ giCheckSlice (some 1) (some 4) 4 = .ok true := by decide +kernel
 
 end HdVerif.C09
